@@ -245,6 +245,9 @@ pub fn run(run: &Run) {
         |_| (),
         |(opts, ops): &(Opts, Vec<AbsOp>), st, _| run_history(opts, ops, st),
     );
+    if run.tier == Tier::Thorough {
+        fuzz_campaign(run);
+    }
     run.require_label("typed-on-learned-base", 1);
     run.require_label("has-keypad-key", 1);
     run.require_label("has-update-engine", 1);
@@ -278,5 +281,55 @@ pub fn replay(_run: &Run, case: &Value) -> Result<(), Failure> {
     match gen::replay_trace(opts, &sb, &events, &mut |_| Ok(())) {
         Ok(r) => r,
         Err(p) => Err(Failure::new(panic_kind(&p.info), format!("event #{}: {}", p.at, p.info), case.clone())),
+    }
+}
+
+/// Thorough tier: coverage-guided libFuzzer campaign over byte-coded histories (target `history`).
+fn fuzz_campaign(run: &Run) {
+    use crate::fuzz::{self, HISTORY_BIN};
+    use std::path::{Path, PathBuf};
+    if !Path::new(HISTORY_BIN).exists() {
+        run.health.lock().unwrap().push(format!("{HISTORY_BIN} is missing (fuzz build failed?)"));
+        return;
+    }
+    let root = crate::driver::scratch_root().join("c01-fuzz");
+    let _ = std::fs::remove_dir_all(&root);
+    let prefix = "/verif/replays/C01-fuzz-";
+    let _ = std::fs::create_dir_all("/verif/replays");
+    let before: std::collections::HashSet<PathBuf> = fuzz::run_dirs_once(HISTORY_BIN, &[], prefix, &root).artifacts.into_iter().collect();
+    // two campaigns: from the committed golden histories, and from an empty corpus; a smaller one with the dictionary
+    let mut total = 0u64;
+    for (name, seeded, runs, data) in [("seeded", true, 20000u64, false), ("empty-corpus", false, 12000, false), ("with-dictionary", true, 1500, true)] {
+        let corpus = root.join(name);
+        let seeds = corpus.join("seeds");
+        std::fs::create_dir_all(&seeds).unwrap();
+        if seeded {
+            if let Ok(rd) = std::fs::read_dir("/verif/corpus/C01-fuzz") {
+                for e in rd.flatten() {
+                    let _ = std::fs::copy(e.path(), seeds.join(e.file_name()));
+                }
+            }
+        }
+        let out = fuzz::campaign(HISTORY_BIN, &corpus, runs, 16, run.seed, 300, prefix, &root, data);
+        total += out.executed;
+        run.parts.lock().unwrap().push(json!({"part": format!("libFuzzer campaign `history` ({name}, 16 jobs)"), "runs_approximate": out.executed, "ok": out.ok}));
+        let new: Vec<PathBuf> = out.artifacts.iter().filter(|a| !before.contains(*a)).cloned().collect();
+        if !out.ok || !new.is_empty() {
+            let mut f = Failure::new("fuzz-history-crash", format!("campaign {name}: {}", out.report.lines().take(8).collect::<Vec<_>>().join(" | ")), json!({}));
+            f.artifact = new.first().cloned().or_else(|| Some(PathBuf::from("/verif/replays/C01-fuzz-no-artifact")));
+            run.fail(f);
+            break;
+        }
+    }
+    run.stats.lock().unwrap().count("fuzz_runs_approximate", total);
+    let _ = std::fs::remove_dir_all(&root);
+}
+
+pub fn replay_artifact(path: &std::path::Path) -> Result<(), Failure> {
+    let (ok, rep) = crate::fuzz::run_one(crate::fuzz::HISTORY_BIN, path, true);
+    if ok {
+        Ok(())
+    } else {
+        Err(Failure::new("fuzz-history-crash", rep, json!({})))
     }
 }
